@@ -137,6 +137,20 @@ CLAIMED.update({
              "/ AS-path-length conditions and set-LOCAL_PREF / add-community actions are in the catalogue."),
 })
 
+CLAIMED.update({
+    "C05": dict(
+        category="exploration", design_ref="DESIGN.md 5 (C05)",
+        technique="TLA+ function-style reference table Rfc7606.tla: base message x peer x AS width x attribute x corruption "
+                  "(x second corrupted attribute) cases enumerated by TLC with the allowed outcomes, each materialised as UPDATE "
+                  "bytes and run through the real try_parse + validate_message; panics are violations",
+        text="All 54,616 cases of the table are enumerated by TLC and each is run on the real decoder/validator; the fate of the "
+             "announced prefix, of the withdrawn prefix and of each corrupted attribute is compared with the table.  Bounded to "
+             "IPv4 legacy NLRI and IPv6 MP_REACH/MP_UNREACH, one announced and one withdrawn prefix, at most two corrupted "
+             "attributes.",
+        note="Trusted: the transcription of the statement into Rfc7606.tla (sanity-checked by TLC) and the byte builder of the "
+             "harness (its 'none' cases must decode to the intended route, which the table requires)."),
+})
+
 NOT_YET = {}
 
 HOOK_COMMITS = []
